@@ -1,7 +1,7 @@
 CONSTANTS
   LieHeights = {5}
   WithCoherent = TRUE
-  CaseKinds = {"Block", "BlockByHash", "Tx", "ABCIQuery", "BlockResults", "ConsensusParams", "BlockchainInfo", "Commit", "Validators"}
+  CaseKinds = {"Block", "BlockByHash", "Tx", "ABCIQuery", "BlockResults", "ConsensusParams", "BlockchainInfo", "Commit", "Validators", "TxSearch"}
   Weak_NoTrustedHashCompare = FALSE
   Weak_NoBlockIDCompare = FALSE
   Weak_NoLastCommitBinding = FALSE
@@ -14,6 +14,7 @@ CONSTANTS
   Weak_AbsenceRawKey = FALSE
   Weak_NoParamsHashCompare = FALSE
   Weak_ValsNotHashed = FALSE
+  Weak_SearchProofFromCachedBlock = FALSE
 INIT CaseInit
 NEXT CaseNext
 INVARIANTS AllProps
